@@ -13,11 +13,13 @@ def showSlot : Option Nat → String
 def showState (r : R) : String :=
   s!"h={r.head} t={r.tail} e={joinWith "," (r.elems.map showSlot)}"
 
-/-- the iterator callback used by both sides: add `d`, stop after an element `x` with `x % m = k` -/
-def cb (d m k : Nat) (o : Option Nat) : Option Nat × Bool :=
+/-- the iterator callback used by both sides: add `d`, stop after an element `x` with `x % m = k`;
+the closure state is an order-sensitive checksum of the values seen (`acc*31 + x mod 2^32`),
+printed as the op's output, so the visiting order itself is observed. -/
+def cb (d m k : Nat) (acc : Nat) (o : Option Nat) : Ring.CbRes Nat Nat :=
   match o with
-  | none => (some d, true)            -- Go: zero value 0 + d (unreachable for well-formed rings)
-  | some x => (some (x + d), !(x % m == k))
+  | none => ⟨(acc * 31) % 4294967296, some d, !(0 % m == k)⟩   -- Go: zero value (unreachable for well-formed rings)
+  | some x => ⟨(acc * 31 + x) % 4294967296, some (x + d), !(x % m == k)⟩
 
 def step (r : R) : List String → R × String
   | ["new", n] => match n.toInt? with
@@ -39,10 +41,10 @@ def step (r : R) : List String → R × String
   | ["isfull"] => (r, s!"{r.isFull} {showState r}")
   | ["maxlen"] => (r, s!"{r.maxLen} {showState r}")
   | ["foreach", d, m, k] => match d.toNat?, m.toNat?, k.toNat? with
-    | some d, some m, some k => let r' := r.forEach (cb d m k); (r', s!"ok {showState r'}")
+    | some d, some m, some k => let p := r.forEach (cb d m k) 0; (p.2, s!"{p.1} {showState p.2}")
     | _, _, _ => (r, "bad-op")
   | ["foreachrev", d, m, k] => match d.toNat?, m.toNat?, k.toNat? with
-    | some d, some m, some k => let r' := r.forEachReverse (cb d m k); (r', s!"ok {showState r'}")
+    | some d, some m, some k => let p := r.forEachReverse (cb d m k) 0; (p.2, s!"{p.1} {showState p.2}")
     | _, _, _ => (r, "bad-op")
   | _ => (r, "bad-op")
 
